@@ -59,10 +59,26 @@ def corpus_helper_cases():
     return out
 
 
+_MODEL_BIN = [None]
+
+
+def helper_model_build():
+    """the Gallina model extracted to OCaml (ExtrOcamlBasic only) + a line driver"""
+    if _MODEL_BIN[0] is None:
+        ok, binp, log = C.ocaml_build("wide_model", G.HELPER_EXTRACT_V, G.HELPER_DRIVER_ML)
+        if not ok:
+            raise RuntimeError("extraction of VV.Wide.WideModel failed: " + log[-1500:])
+        _MODEL_BIN[0] = binp
+    return _MODEL_BIN[0]
+
+
 def helper_model_eval(cases, name="c18h"):
-    terms = [G.helper_coq(c) for c in cases]
-    vals = C.coq_eval_sharded(name, G.HELPER_PREAMBLE, terms, lambda l: l, shard=400)
-    return [G.parse_helper_model(v) for v in vals]
+    outs = C.run_lines(helper_model_build(), [G.helper_wire(c) for c in cases])
+    res = []
+    for ln in outs:
+        r = G.parse_helper_out(ln)
+        res.append(("I", r[1]) if r[0] == "N" else r)
+    return res
 
 
 def helper_impl_eval(binary, cases):
